@@ -544,12 +544,12 @@ pub fn run(ctx: &Ctx) {
     let pieces: &[usize] = if t == Tier::Quick { &[1] } else { &[1, 0] };
     // nesting soup: longer sequences over the six tokens that decide nesting, into the targets that skip
     // content (unit, IgnoredAny, unknown fields, tuples of them) or count on matched tags
-    const NEST: [&str; 6] = ["<a>", "</a>", "<b>", "</b>", "t", "<a/>"];
-    const NEST_TARGETS: [usize; 14] = [0, 2, 10, 13, 22, 23, 24, 26, 35, 39, 40, 41, 43, 44];
+    const NEST: [&str; 7] = ["<a>", "</a>", "<b>", "</b>", "t", "<a/>", "<p:b/>"];
+    const NEST_TARGETS: [usize; 15] = [0, 2, 10, 13, 22, 23, 24, 26, 35, 37, 39, 40, 41, 43, 44];
     let nn = t.pick(6, 8);
-    ctx.layer("nesting_soup", 3, count_upto(6, nn), json!({"tokens": NEST, "max_tokens": nn, "targets": NEST_TARGETS.iter().map(|&t| TARGETS[t]).collect::<Vec<_>>()}), |i, acc| {
+    ctx.layer("nesting_soup", 3, count_upto(7, nn), json!({"tokens": NEST, "max_tokens": nn, "targets": NEST_TARGETS.iter().map(|&t| TARGETS[t]).collect::<Vec<_>>()}), |i, acc| {
         let mut d = Vec::new();
-        decode_upto(6, nn, i, &mut d);
+        decode_upto(7, nn, i, &mut d);
         let mut doc = String::new();
         for &x in &d {
             doc.push_str(NEST[x as usize]);
@@ -559,6 +559,26 @@ pub fn run(ctx: &Ctx) {
             call(acc, (3, i), doc.as_bytes(), tt, false, 0, &known);
             for &p in pieces {
                 call(acc, (3, i), doc.as_bytes(), tt, true, p, &known);
+            }
+        }
+    });
+
+    // characters: `char` targets from element content, CDATA and references (single-byte, multi-byte, too many, none)
+    const CHAR_TEXTS: [&str; 12] = ["\u{e9}", "\u{e9}x", "&#233;", "<![CDATA[\u{436}]]>", "", "ab", "\u{10FFFF}", "a", "&#x1F600;", "\u{1F600}\u{1F600}", " \u{e9} ", "&lt;"];
+    ctx.layer("char_targets", 5, CHAR_TEXTS.len() as u64 * 3, json!({"texts": CHAR_TEXTS, "documents": ["<r><c>X</c></r> as SPrims", "<c>X</c> as char", "<r><a>X</a><a>X</a></r> as a list / tuple of char"]}), |i, acc| {
+        let x = CHAR_TEXTS[(i / 3) as usize];
+        acc.nt_count += 1;
+        for via in [false, true] {
+            let r = match i % 3 {
+                0 => de_any::<SPrims>(format!("<r><c>{}</c></r>", x).as_bytes(), via, 1),
+                1 => de_any::<char>(format!("<c>{}</c>", x).as_bytes(), via, 1),
+                _ => de_any::<BVec<char>>(format!("<a>{}</a><a>{}</a>", x, x).as_bytes(), via, 1).and(de_any::<(char, char)>(format!("<a>{}</a><a>{}</a>", x, x).as_bytes(), via, 1)),
+            };
+            acc.evaluations += 1;
+            acc.transitions += 1;
+            acc.traces += 1;
+            if let Err(what) = r {
+                acc.violation((5, i), format!("char target, text {:?} (shape {}) via {}: {}", x, i % 3, if via { "from_reader" } else { "from_str" }, what), json!({"input": bytes_json(format!("<r><c>{}</c></r>", x).as_bytes()), "target": 14, "target_name": "SPrims", "via_reader": via, "piece": 1}));
             }
         }
     });
